@@ -126,6 +126,13 @@ def opBoolSize (j : Json) : R Json := do
   return Json.arr (vs.map fun v => Json.arr #[Json.bool (getBool v.toList),
     match getSize v.toList with | some n => Json.num n | none => Json.null]).toArray
 
+open Cfg in
+/-- {"repos":[url...], "url": u} -> the repository URLs a skip-clean URL names -/
+def opSkipClean (j : Json) : R Json := do
+  let repos ← (← fArr j "repos").mapM (·.getStr?)
+  let u ← fStr j "url"
+  return Json.arr ((skipCleanTargets (repos.map String.toList) u.toList).map encS).toArray
+
 open Vars in
 /-- {"env":[[key,value]...]} (table order) -> {"ok":[[key,value]...]} | {"error":"value"|"key"} -/
 def opSubstVars (j : Json) : R Json := do
@@ -530,6 +537,7 @@ def dispatch (j : Json) : R Json := do
   | "findkey" => opFindKey j
   | "boolsize" => opBoolSize j
   | "subst_vars" => opSubstVars j
+  | "skip_clean" => opSkipClean j
   | "plainname" => opPlainName j
   | "resolve" => opResolve j
   | "http_classify" => opHttpClassify j
